@@ -164,7 +164,13 @@ func (e *c16Env) internalSel(q string, vars map[string]interface{}) (ast.Selecti
 // canonSchemaLists: `types` / `directives` come out of Go maps. When every element carries a
 // distinct string under "name" the resolver's sortPayload determines the order and the lists
 // are compared verbatim; otherwise they are compared as multisets (sorted by canonical text).
-func canonSchemaLists(ss ast.SelectionSet, data interface{}) {
+func canonSchemaLists(ss ast.SelectionSet, data interface{}) { canonSchemaListsMode(ss, data, false) }
+
+// sortSchemaLists: the specification prescribes no order for `types` / `directives`; the
+// comparison of the gateway's answer with the specification is always on multisets.
+func sortSchemaLists(ss ast.SelectionSet, data interface{}) { canonSchemaListsMode(ss, data, true) }
+
+func canonSchemaListsMode(ss ast.SelectionSet, data interface{}, always bool) {
 	m, ok := data.(map[string]interface{})
 	if !ok {
 		return
@@ -196,9 +202,128 @@ func canonSchemaLists(ss ast.SelectionSet, data interface{}) {
 				}
 				seen[n] = true
 			}
-			if !distinct {
+			switch {
+			case distinct && always:
+				// align the two sides on the (distinct) names, whatever else the elements carry
+				sort.SliceStable(arr, func(i, j int) bool {
+					return arr[i].(map[string]interface{})["name"].(string) < arr[j].(map[string]interface{})["name"].(string)
+				})
+			case !distinct && !always:
 				sort.SliceStable(arr, func(i, j int) bool { return hx.Canon(arr[i]) < hx.Canon(arr[j]) })
 			}
+		}
+	}
+}
+
+func varsOrEmpty(v map[string]interface{}) map[string]interface{} {
+	if v == nil {
+		return map[string]interface{}{}
+	}
+	return v
+}
+
+const alignKey = "__align"
+
+// withAlignKey adds `__align: name` to the sub-selection of every types / directives field of __schema.
+func withAlignKey(sel []interface{}) []interface{} {
+	var walk func(xs []interface{}, inSchema bool) []interface{}
+	walk = func(xs []interface{}, inSchema bool) []interface{} {
+		out := make([]interface{}, 0, len(xs))
+		for _, x := range xs {
+			m, _ := x.(map[string]interface{})
+			c := map[string]interface{}{}
+			for k, v := range m {
+				c[k] = v
+			}
+			sub, _ := m["s"].([]interface{})
+			switch {
+			case m["k"] == "i":
+				c["s"] = walk(sub, inSchema)
+			case inSchema && (m["n"] == "types" || m["n"] == "directives"):
+				c["s"] = append(append([]interface{}{}, sub...), map[string]interface{}{"k": "f", "a": alignKey, "n": "name", "args": []interface{}{}, "s": []interface{}{}})
+			case !inSchema && m["n"] == "__schema":
+				c["s"] = walk(sub, true)
+			}
+			out = append(out, c)
+		}
+		return out
+	}
+	return walk(sel, false)
+}
+
+// orderByAlignKey sorts every list whose elements carry the align key by it, and removes the key.
+func orderByAlignKey(v interface{}) {
+	switch x := v.(type) {
+	case map[string]interface{}:
+		for _, c := range x {
+			orderByAlignKey(c)
+		}
+	case []interface{}:
+		all := len(x) > 0
+		for _, el := range x {
+			em, ok := el.(map[string]interface{})
+			if _, has := em[alignKey].(string); !ok || !has {
+				all = false
+			}
+		}
+		if all {
+			sort.SliceStable(x, func(i, j int) bool {
+				return x[i].(map[string]interface{})[alignKey].(string) < x[j].(map[string]interface{})[alignKey].(string)
+			})
+			for _, el := range x {
+				delete(el.(map[string]interface{}), alignKey)
+			}
+		}
+		for _, c := range x {
+			orderByAlignKey(c)
+		}
+	}
+}
+
+func distinctNames(arr []interface{}) bool {
+	seen := map[string]bool{}
+	for _, el := range arr {
+		em, _ := el.(map[string]interface{})
+		n, ok := em["name"].(string)
+		if !ok || seen[n] {
+			return false
+		}
+		seen[n] = true
+	}
+	return true
+}
+
+// alignSchemaLists: where the elements of `types` / `directives` carry no distinct names the
+// gateway lists them in Go's map order, which cannot be paired with the specification's list
+// element by element. The model, run with the definitions in name order, lists them in the
+// specification's order, and the gateway's answer has just been checked to be the model's answer
+// as a multiset — so the model's lists stand in for the gateway's in the element-wise comparison
+// with the specification.
+func alignSchemaLists(ss ast.SelectionSet, got, modelInOrder interface{}) {
+	gm, ok1 := got.(map[string]interface{})
+	mm, ok2 := modelInOrder.(map[string]interface{})
+	if !ok1 || !ok2 {
+		return
+	}
+	for _, f := range flatten(ss) {
+		if f.Name != "__schema" {
+			continue
+		}
+		gobj, ok1 := gm[f.Alias].(map[string]interface{})
+		mobj, ok2 := mm[f.Alias].(map[string]interface{})
+		if !ok1 || !ok2 {
+			continue
+		}
+		for _, g := range flatten(f.Sub) {
+			if g.Name != "types" && g.Name != "directives" {
+				continue
+			}
+			ga, ok1 := gobj[g.Alias].([]interface{})
+			ma, ok2 := mobj[g.Alias].([]interface{})
+			if !ok1 || !ok2 || len(ma) != len(ga) || distinctNames(ga) {
+				continue
+			}
+			gobj[g.Alias] = ma
 		}
 	}
 }
@@ -343,7 +468,9 @@ func c16Check(ctx *Ctx, idx int, env *c16Env, cs ioCase) {
 		}
 		ctx.Rep.Traces++
 		model := res["result"]
+		modelInOrder := normJSON(model) // the model's lists before canonicalisation: definitions in name order
 		canonSchemaLists(raw, model)
+		modelAgrees := hx.Canon(model) == hx.Canon(got)
 		if hx.Canon(model) != hx.Canon(got) {
 			var ds []jdiff
 			jsonDiff(model, got, nil, &ds)
@@ -371,8 +498,7 @@ func c16Check(ctx *Ctx, idx int, env *c16Env, cs ioCase) {
 			ctx.Rep.Fail(hx.Failure{Kind: "harness-error", Detail: err.Error(), Case: cs, Index: idx})
 			return
 		}
-		want := sp["result"]
-		canonSchemaLists(raw, want)
+		want := normJSON(sp["result"]) // the specification's lists: definitions in name order
 		// inside the feature sets of C16_resolve_eq_spec_partial (asked of the Lean predicates, on the
 		// selection set the resolver receives) nothing may differ and no finding class applies
 		if sup, err := ctx.Driver.Call(env.driverArgs("c16.supported", isel, cs.Vars)); err == nil && sup["schema"] == true && sup["sel"] == true {
@@ -392,6 +518,17 @@ func c16Check(ctx *Ctx, idx int, env *c16Env, cs ioCase) {
 				return
 			}
 		}
+		if modelAgrees {
+			// the model's per-definition answers in name order: run it once more with an extra
+			// `__align: name` in every types/directives selection, order by it, drop it
+			if al, err := ctx.Driver.Call(map[string]interface{}{"op": "c16.resolve", "schema": env.sj, "sel": withAlignKey(selJSON(isel)), "vars": varsOrEmpty(cs.Vars)}); err == nil {
+				modelInOrder = normJSON(al["result"])
+				orderByAlignKey(modelInOrder)
+			}
+			alignSchemaLists(raw, got, modelInOrder)
+		}
+		sortSchemaLists(raw, want)
+		sortSchemaLists(raw, got)
 		c16ReportDiffs(ctx, idx, cs, raw, want, got, "HTTP answer vs Spec.select(Spec.introspect)")
 	}
 	ctx.Rep.Sample(map[string]interface{}{"schema_features": env.gs.Feat, "query": cs.Query, "variables": cs.Vars})
